@@ -33,4 +33,5 @@ registry! {
     c10::C10,
     c11::C11,
     c12::C12,
+    c15::C15,
 }
